@@ -20,6 +20,12 @@ package c16
 // coding, long-term references, tiles, entropy sync, lists modification,
 // slice header extension, sub-picture HRD ...).
 //
+// One chain-ue case holds all variants of one position (the forced values,
+// among them the long-prefix values of hostile.go, and the bit flip): they go
+// to the probe in one request, each is parsed and followed by the same
+// dependent units. For the ref contexts every recorded syntax element is also
+// forced as a fixed-width number (all ones, plus one).
+//
 // sei-ue: the same forced codes at every bit position of every SEI payload
 // seed and of HEVC pic_timing payloads laid out for every external-parameter
 // set, handed to the decoders with every external-parameter set and framed as
@@ -714,7 +720,7 @@ func buildSysPlan(s *seedSet, thorough bool) int {
 			}
 		}
 	}
-	return sysPositions*sysPer + 2*len(sysFixed)
+	return sysPositions + len(sysFixed)
 }
 
 // sysReps: mutations per position. Quick: ue(v) for the eight primary values
@@ -767,102 +773,102 @@ func flipBitNAL(nal []byte, hdr, pos int) []byte {
 	return append(cp(nal[:hdr]), bitw.Escape(w.Bytes())...)
 }
 
+// genChainUE: one case = one position (or one known syntax element) of one
+// parameter set; all its variants go to the probe in one request, each parsed
+// and followed by the same dependent units.
 func genChainUE(x *runCtx, c *runner.Ctx, sub int) *job {
 	var tg sysTarget
 	var pos int
-	var flip, insert bool
-	var v uint64
-	fixed, fixedDesc := false, ""
-	var hostile []byte
-	if sub >= sysPositions*sysPer {
+	fixedN := 0
+	if sub >= sysPositions {
 		// a syntax element of a ref context forced as a fixed-width field
-		ft := sysFixed[(sub-sysPositions*sysPer)/2]
+		ft := sysFixed[sub-sysPositions]
 		tg = sysTarget{stream: ft.stream, which: ft.which}
-		pos, fixed = ft.f.pos, true
-		st := &sysStreams[tg.stream]
-		nal := [][]byte{st.sps, st.pps}[tg.which]
-		hdr := hdrLen(st.codec)
-		rbsp := bitw.Unescape(nal[hdr:])
-		var w *bitw.W
-		if sub%2 == 0 {
-			w = forceOnes(rbsp, rbspDataBits(rbsp), pos, ft.f.n)
-			fixedDesc = fmt.Sprintf("all %d bits set to one", ft.f.n)
-		} else {
-			w = forceIncr(rbsp, rbspDataBits(rbsp), pos, ft.f.n)
-			fixedDesc = fmt.Sprintf("the %d-bit number incremented by one", ft.f.n)
-		}
-		w.TrailingBits()
-		hostile = append(cp(nal[:hdr]), bitw.Escape(w.Bytes())...)
+		pos, fixedN = ft.f.pos, ft.f.n
 	} else {
-		p := sub / sysPer
-		rep := sub % sysPer
 		// locate the target
 		lo, hi := 0, len(sysTargets)-1
 		for lo < hi {
 			mid := (lo + hi + 1) / 2
-			if sysTargetOff[mid] <= p {
+			if sysTargetOff[mid] <= sub {
 				lo = mid
 			} else {
 				hi = mid - 1
 			}
 		}
 		tg = sysTargets[lo]
-		pos = p - sysTargetOff[lo]
-		flip, v, insert = sysChoice(c.Env.Tier == "thorough", rep)
+		pos = sub - sysTargetOff[lo]
 	}
 	st := &sysStreams[tg.stream]
 	hdr := hdrLen(st.codec)
 	orig := [][]byte{st.sps, st.pps}
-	if fixed {
-		// built above
-	} else if flip {
-		hostile = flipBitNAL(orig[tg.which], hdr, pos)
-	} else {
-		hostile = forceUENAL(orig[tg.which], hdr, pos, v, insert)
-	}
 	kind := st.codec + []string{"-sps", "-pps"}[tg.which]
 	field := ""
 	if st.elems[tg.which] != nil {
 		field = st.elems[tg.which][pos]
 	}
-	ch := &chainDetail{Codec: st.codec, Sys: true, Kind: kind, Field: field,
-		PS:   []string{hex.EncodeToString(hostile), hex.EncodeToString(orig[1-tg.which])},
-		Base: []string{hex.EncodeToString(st.sps), hex.EncodeToString(st.pps)}}
-	how := "replacing the code that starts there"
-	if insert {
-		how = "inserted"
+	j := &job{}
+	var hostiles [][]byte
+	variant := func(hostile []byte, desc, how, vs string, flip bool) {
+		if field != "" {
+			desc += " = " + field
+		}
+		j.chains = append(j.chains, &chainDetail{Codec: st.codec, Sys: true, Kind: kind, Field: field, Flip: flip, Desc: desc,
+			PS:   []string{hex.EncodeToString(hostile), hex.EncodeToString(orig[1-tg.which])},
+			Base: []string{hex.EncodeToString(st.sps), hex.EncodeToString(st.pps)}})
+		hostiles = append(hostiles, hostile)
+		x.note("chain_ue_value", vs)
+		x.note("chain_ue_variant", how)
 	}
-	vs := fmt.Sprint(v)
-	desc := fmt.Sprintf("chain-ue(%s): ue(v)=%d at RBSP bit %d of the %s of %s (%s)", st.codec, v, pos, kind, st.name, how)
-	if flip {
-		how, vs = "single bit flipped", "bit-flip"
-		ch.Flip = true
-		desc = fmt.Sprintf("chain-ue(%s): RBSP bit %d of the %s of %s flipped", st.codec, pos, kind, st.name)
+	if fixedN > 0 {
+		nal := orig[tg.which]
+		rbsp := bitw.Unescape(nal[hdr:])
+		for k := 0; k < 2; k++ {
+			var w *bitw.W
+			fixedDesc := ""
+			if k == 0 {
+				w = forceOnes(rbsp, rbspDataBits(rbsp), pos, fixedN)
+				fixedDesc = fmt.Sprintf("all %d bits set to one", fixedN)
+			} else {
+				w = forceIncr(rbsp, rbspDataBits(rbsp), pos, fixedN)
+				fixedDesc = fmt.Sprintf("the %d-bit number incremented by one", fixedN)
+			}
+			w.TrailingBits()
+			// (evidence: counted with the flips, not with the extreme Exp-Golomb values)
+			variant(append(cp(nal[:hdr]), bitw.Escape(w.Bytes())...),
+				fmt.Sprintf("chain-ue(%s): syntax element at RBSP bit %d of the %s of %s: %s", st.codec, pos, kind, st.name, fixedDesc),
+				"syntax element forced as a fixed-width field", "fixed-width", true)
+		}
+	} else {
+		th := c.Env.Tier == "thorough"
+		for rep := 0; rep < sysPer; rep++ {
+			flip, v, insert := sysChoice(th, rep)
+			if flip {
+				variant(flipBitNAL(orig[tg.which], hdr, pos), fmt.Sprintf("chain-ue(%s): RBSP bit %d of the %s of %s flipped", st.codec, pos, kind, st.name),
+					"single bit flipped", "bit-flip", true)
+				continue
+			}
+			how := "replacing the code that starts there"
+			if insert {
+				how = "inserted"
+			}
+			variant(forceUENAL(orig[tg.which], hdr, pos, v, insert),
+				fmt.Sprintf("chain-ue(%s): ue(v)=%d at RBSP bit %d of the %s of %s (%s)", st.codec, v, pos, kind, st.name, how), how, fmt.Sprint(v), false)
+		}
 	}
-	if fixed {
-		how, vs = "syntax element forced as a fixed-width field", "fixed-width"
-		ch.Flip = true // (evidence: counted with the flips, not with the extreme Exp-Golomb values)
-		desc = fmt.Sprintf("chain-ue(%s): syntax element at RBSP bit %d of the %s of %s: %s", st.codec, pos, kind, st.name, fixedDesc)
-	}
-	if field != "" {
-		desc += " = " + field
-	}
-	j := &job{chain: ch}
 	for i, u := range st.slices {
-		j.items = append(j.items, item{In: u, Mode: "dependent", Desc: fmt.Sprintf("%s -> slice %d of the stream", desc, i)})
+		j.items = append(j.items, item{In: u, Mode: "dependent", Desc: fmt.Sprintf("slice %d of the stream", i)})
 	}
 	if tg.which == 0 {
 		for i, u := range st.seis {
-			j.items = append(j.items, item{In: u, Mode: "dependent", Desc: fmt.Sprintf("%s -> SEI unit %d", desc, i)})
+			j.items = append(j.items, item{In: u, Mode: "dependent", Desc: fmt.Sprintf("SEI unit %d", i)})
 		}
 	}
 	if len(st.slices) > 0 {
 		n := minInt(len(st.slices), 3)
-		j.items = append(j.items, item{In: annexb.BuildSample(st.slices[:n]), Mode: "dependent", Desc: desc + " -> sample of the first slices"})
+		j.items = append(j.items, item{In: annexb.BuildSample(st.slices[:n]), Mode: "dependent", Desc: "sample of the first slices"})
 	}
 	x.note("chain_ue_target", kind+" "+st.origin)
-	x.note("chain_ue_value", vs)
-	x.note("chain_ue_variant", how)
 	if pos < 1024 {
 		x.note("chain_ue_position_class", fmt.Sprintf("%s bits %d..%d", kind, pos/64*64, pos/64*64+63))
 	}
@@ -870,21 +876,24 @@ func genChainUE(x *runCtx, c *runner.Ctx, sub int) *job {
 		x.note("chain_ue_stream_feature", st.codec+" "+f)
 	}
 	c.Count("chain_ue_cases", 1)
+	c.Count("chain_ue_hostile_variants", int64(len(j.chains)))
 	if sub == 0 {
 		// the layout of the plan, reported once
 		for k, n := range sysInfo {
 			c.Count("chain_ue_plan:"+k, int64(n))
 		}
 		c.Count("chain_ue_plan:positions", int64(sysPositions))
+		c.Count("chain_ue_plan:known_syntax_elements", int64(len(sysFixed)))
 		c.Count("sei_ue_plan:payload_seeds", int64(len(seiUESeeds)))
 		c.Count("sei_ue_plan:positions", int64(seiUEPos))
 	}
 	x.note("chain_ue_context", st.codec+" "+st.origin)
-	// what the tools get: the stream with the hostile set in place
+	// what the tools get: the stream with one of the hostile sets in place (rotating)
 	units := [][]byte{st.sps, st.pps}
-	units[tg.which] = hostile
+	units[tg.which] = hostiles[(c.Idx/10)%len(hostiles)]
 	units = append(units, st.slices...)
 	x.toolIn = annexb.BuildStream(units, nil)
+	x.toolDesc = j.chains[(c.Idx/10)%len(hostiles)].Desc
 	return j
 }
 
